@@ -106,13 +106,22 @@ def run(run):
                         m3, e3 = ct.array_contract(arrays, net.c_inputs(), net.c_output(), strip_exponent=True,
                                                    optimize=rng.choice(["greedy", "auto"]))
                         plain = tree.contract(arrays)
+                        # the manual workflow: slices materialised once (stripped) and gathered more than once
+                        manual = None
+                        if sl and tree.nslices <= 18:
+                            slices = [tree.contract_slice(arrays, i_, strip_exponent=True) for i_ in range(tree.nslices)]
+                            g1 = tree.gather_slices(slices)
+                            g2 = tree.gather_slices(slices)
+                            manual = (g1, g2)
                 except Exception as ex:
                     run.violation(f"strip_exponent contraction raised {core.exc_text(ex)} eq={net.eq()} sliced={sl} scales={scales}", d,
                                   tags={"raised"})
                     continue
                 overflowed = not np.all(np.isfinite(np.asarray(plain))) or (np.any(np.asarray(plain) == 0) and np.all(ref > 0))
-                for nm, (mm, ee) in (("tree.contract", (m, e)), ("tree.contract(recording implementation)", (m2, e2)),
-                                     ("array_contract", (m3, e3))):
+                for nm, (mm, ee) in [("tree.contract", (m, e)), ("tree.contract(recording implementation)", (m2, e2)),
+                                     ("array_contract", (m3, e3))] + \
+                        ([("gather_slices(materialised stripped slices)", manual[0]),
+                          ("gather_slices(the same materialised slices, gathered again)", manual[1])] if manual else []):
                     mm = np.asarray(mm, dtype=np.float64)
                     ok = np.all(np.isfinite(mm)) and math.isfinite(float(ee))
                     if ok:
@@ -182,6 +191,11 @@ def run(run):
                 with core.watchdog(60), np.errstate(all="ignore"):
                     tree = observe.build_tree(ct, net, ssa)
                     tree.remove_ind_(net.lab[ix])
+                    if rng.random() < 0.5:
+                        try:
+                            tree.contract(arrays, strip_exponent=True)      # the unchecked call first (its result is not used)
+                        except Exception:
+                            pass
                     m, e = tree.contract(arrays, strip_exponent=True, check_zero=True)
                     mm = np.asarray(m, dtype=np.float64)
                     ok = np.all(np.isfinite(mm)) and math.isfinite(float(e))
